@@ -31,6 +31,7 @@ FILE_OWNER = {
     'soplex_interface.cpp': 'C20',
     'clufactor_rational.hpp': 'C11', 'clufactor_rational.h': 'C11', 'slufactor_rational.hpp': 'C11', 'slufactor_rational.h': 'C11',
     'slufactor_rational.cpp': 'C11',
+    'clufactor.hpp': 'C10', 'clufactor.h': 'C10', 'slufactor.hpp': 'C10', 'slufactor.h': 'C10', 'slinsolver.h': 'C10',
     'solverational.hpp': 'C03', 'ratrecon.hpp': 'C03', 'ratrecon.h': 'C03',
     'spxmainsm.hpp': 'C08', 'spxmainsm.h': 'C08', 'spxsimplifier.h': 'C08',
     'spxscaler.hpp': 'C09', 'spxscaler.h': 'C09', 'spxequilisc.hpp': 'C09', 'spxgeometsc.hpp': 'C09', 'spxleastsqsc.hpp': 'C09',
